@@ -214,10 +214,43 @@ pub fn assemble(sched_seed: u64, seg: SegPattern, max_write: Option<usize>, gen:
     let mut replies = Vec::new();
     let mut k = 0usize;
     let steps = gen.into_iter().map(|g| conv(g, &mut k, &mut replies)).collect();
-    Script { sched_seed, seg, replies, steps, max_write, picture: None, broken_pipe: true, greeting: None, lazy_events: false }
+    Script { sched_seed, seg, replies, steps, max_write, picture: None, broken_pipe: true, greeting: None, lazy_events: false, version: None, vectored: false }
+}
+
+/// Properties of the peer and the transport that no property statement restricts: the version the
+/// server announces and whether the transport takes vectored writes.
+pub fn environment() -> impl Strategy<Value = (Option<String>, bool, Option<u16>)> {
+    (
+        prop_oneof![
+            6 => Just(None),
+            1 => prop_oneof![Just("0.19.0"), Just("0.20.23"), Just("0.21.0"), Just("0.21.11"), Just("0.22"), Just("0.24.4"), Just("1.0.0"), Just("10.2.3"), Just("0.23.5-git"), Just("next")].prop_map(|v| Some(v.to_string())),
+            1 => "[0-9]{1,2}\\.[0-9]{1,2}(\\.[0-9]{1,2})?".prop_map(Some),
+        ],
+        prop::bool::weighted(0.25),
+        // the application drops its ConnectionEvents handle at some point (the docs allow that)
+        prop_oneof![5 => Just(None), 1 => Just(Some(0u16)), 1 => any::<u16>().prop_map(Some)],
+    )
+}
+
+pub fn in_environment(s: impl Strategy<Value = Script>) -> impl Strategy<Value = Script> {
+    (s, environment()).prop_map(|(mut s, (version, vectored, drop_events))| {
+        s.version = version;
+        s.vectored = vectored;
+        if let Some(at) = drop_events {
+            if !s.lazy_events && !crate::props::simprops::flatten(&s.steps).iter().any(|x| matches!(x, Step::DropEvents)) {
+                let i = crate::core::pick_idx(at, s.steps.len() + 1);
+                s.steps.insert(i, Step::DropEvents);
+            }
+        }
+        s
+    })
 }
 
 pub fn script(change_weight: u32, max_names: usize, max_steps: usize) -> impl Strategy<Value = Script> {
+    in_environment(script_plain(change_weight, max_names, max_steps))
+}
+
+fn script_plain(change_weight: u32, max_names: usize, max_steps: usize) -> impl Strategy<Value = Script> {
     (
         any::<u64>(),
         seg_pattern(),
@@ -250,6 +283,10 @@ pub fn fault() -> impl Strategy<Value = Fault> {
 
 /// C08: a request/notification history with exactly one fault (or the last handle dropped).
 pub fn faulty_script() -> impl Strategy<Value = Script> {
+    in_environment(faulty_script_plain())
+}
+
+fn faulty_script_plain() -> impl Strategy<Value = Script> {
     (
         any::<u64>(),
         seg_pattern(),
